@@ -43,7 +43,12 @@ def make_boundary(r, kind):
         s = "".join(r.choice(alnum + RFC_EXTRA) for _ in range(n))
         # at least one of the characters that are special in a regular expression
         k = r.randrange(n)
-        return s[:k] + r.choice("+().?") + s[k + 1:]
+        s = s[:k] + r.choice("+().?") + s[k + 1:]
+        if n >= 12 and r.random() < 0.4:
+            # RFC 2046 allows blanks inside a boundary (not at its end); '~' is the script's spelling of a blank
+            j = r.randrange(1, n - 1)
+            s = s[:j] + "~" + s[j + 1:]
+        return s
     if kind == "dashes":
         return "--" + "".join(r.choice(alnum) for _ in range(6)) + "--"
     raise ValueError(kind)
@@ -53,7 +58,7 @@ def regions_of(body, boundary):
     """Classify every cut position of a multipart body (for the evidence)."""
     reg = {}
     b = body
-    delim = b"--" + boundary.encode()
+    delim = b"--" + boundary.replace("~", " ").encode()
     pos = 0
     out = ["payload"] * len(b)
     for m in re.finditer(re.escape(delim), b):
@@ -261,6 +266,8 @@ class C05(core.Check):
 
         def base(nch, lo, hi, dict_size=0, comp=0):
             pieces = [r.randbytes(r.randrange(lo, hi)) for _ in range(nch)]
+            if nch >= 3 and r.random() < 0.5:
+                pieces[r.randrange(1, nch - 1)] = r.randbytes(1)   # a one-byte chunk between neighbours (Content-Range: bytes N-N/T)
             if nch >= 3 and r.random() < 0.35:
                 # byte-identical chunks (same checksum, two places in the index): each copy is a chunk of its own to fill and verify
                 for _ in range(r.choice([1, 2])):
@@ -290,6 +297,9 @@ class C05(core.Check):
             bd = make_boundary(r, bkind)
             if any(ch not in TOKEN_SAFE for ch in bd):
                 style |= 1  # must be quoted in the header line
+            # the header block as other servers / transports deliver it: HTTP/2 status line, an earlier redirect or proxy header block first
+            if r.random() < 0.3:
+                style |= r.choice([128, 256, 512, 128 | 256, 256 | 512])
             out.append({"name": name, "B": core.b64(B), "T0": core.b64(t0_for(B, p, set(M), truncate)), "M": M, "limit": limit, "style": style,
                         "boundary": bd, "bkind": bkind, "mode": mode, "corrupt": corrupt, "chain": chain, "zh": ctx["zh"]})
 
@@ -336,7 +346,7 @@ class C05(core.Check):
             ids = [c["number"] for c in p.chunks if c["comp_len"] > 0]
             M = sorted({k for k in ids if r.random() < 0.7} or {ids[-1]})
             bd = make_boundary(r, r.choice(["plain", "hex", "rfc"]))
-            style = r.choice([0, 1, 4, 32, 36, 96, 100])
+            style = r.choice([0, 1, 4, 32, 36, 96, 100]) | r.choice([0, 0, 128, 256, 512])
             if any(ch not in TOKEN_SAFE for ch in bd):
                 style |= 1
             for upto in r.sample([1, 3, 17, 60, 150, 333, 700, 1500, 4000], 3):
